@@ -242,8 +242,14 @@ func isSyncType(t types.Type) bool {
 	if p, ok := t.(*types.Pointer); ok {
 		t = p.Elem()
 	}
-	if n, ok := t.(*types.Named); ok && n.Obj().Pkg() != nil && n.Obj().Pkg().Path() == "sync" {
-		return true
+	if n, ok := t.(*types.Named); ok && n.Obj().Pkg() != nil {
+		switch n.Obj().Pkg().Path() {
+		case "sync", "sync/atomic":
+			return true
+		case "regexp":
+			// a compiled *regexp.Regexp is documented as safe for concurrent use by multiple goroutines
+			return n.Obj().Name() == "Regexp"
+		}
 	}
 	return false
 }
@@ -283,7 +289,7 @@ func (in *instr) mutableRef(id *ast.Ident) bool {
 		return false
 	}
 	t := o.Type()
-	if types.Implements(t, errorType) {
+	if types.Implements(t, errorType) || isSyncType(t) {
 		return false
 	}
 	// slices and maps handed to a callee are, in this code base, read-only tables (defaultHex
@@ -701,7 +707,9 @@ func (in *instr) function(fd *ast.FuncDecl) {
 						if id, ok := se.X.(*ast.Ident); ok {
 							if sel := in.info.Selections[se]; sel != nil && sel.Kind() == types.MethodVal {
 								if in.pkgVar(id) {
-									add(probe{field: id.Name, write: true})
+									if !isSyncType(in.info.Uses[id].Type()) {
+										add(probe{field: id.Name, write: true})
+									}
 								} else if o := in.info.Uses[id]; o != nil {
 									if a, ok := aliases[o]; ok {
 										add(probe{obj: a.obj, field: a.field, write: true})
